@@ -53,11 +53,14 @@ CONSTANTS
     Toks,           \* token classes a client presents: "own" (as issued), "bad" (altered)
     Lags,           \* staleness of the reaper's tick time: drainExpired(now - lag)
     AadBinds,       \* TRUE = the code: the token's AEAD AAD binds it to the caller identity
-    Mode,           \* "mc" | "edges" | "tree" | "trace"
+    Mode,           \* "mc" | "edges" | "classes" | "tree" | "trace"
     Depth,
     Serial,         \* generation: one actor at a time (sequential histories, need no gates)
     Det,            \* generation: only schedules a gated replay realises deterministically
-    Probe           \* include EntryLock_Wait (a Lock() attempt that blocks)
+    Probe,          \* include EntryLock_Wait (a Lock() attempt that blocks)
+    TraceExpired(_) \* Mode = "trace" only: the recorded execution's own verdict "entry s is past its
+                    \* TTL" (recorded executions run on the wall clock, which is not modelled);
+                    \* every other cfg substitutes NoOracle
 
 Sess == 1..NSess
 Thr  == 1..NThr
@@ -117,22 +120,54 @@ Proj(cl, rg, pcs, rqs) ==
      live   |-> [s \in Sess |-> rg[s].in],
      inh    |-> [s \in Sess |-> {t \in Thr : pcs[t] \in HPcs /\ (rqs[t].lk = s \/ rqs[t].minted = s)}]]
 
-Record(step) ==
+Record(step, sig) ==
     /\ hist' = CASE Mode = "trace" -> hist
                  [] Mode = "mc"    -> hist
                  [] OTHER          -> Append(hist, step)
     /\ (Mode = "edges") => EmitTrace(hist')
+    /\ (Mode = "classes") => EmitOncePerClass(ToString(sig), hist')
     /\ (Mode = "tree" /\ Len(hist') = Depth) => EmitTrace(hist')
 
 Budget == (Mode = "tree") => Len(hist) < Depth
 
+\* Class of a transition (Mode = "classes": one witness behaviour per class).  The state is
+\* abstracted to what decides the outcome of the actions: per session its life-cycle phase,
+\* whether it is locked / its token is out; per thread where it is and what it will still do;
+\* the parameters of an action are replaced by their relation to the state.
+NoOracle(s) == FALSE
+\* entry.expiresAt.Before(n)
+Expired(s, n) == IF Mode = "trace" THEN TraceExpired(s) ELSE reg[s].exp < n
+
+SessClass(s) ==
+    IF ~sinfo[s].used THEN "free"
+    ELSE IF reg[s].in THEN (IF Expired(s, now) THEN "stale" ELSE "live")
+    ELSE IF pending[s] # 0 THEN "closing" ELSE "gone"
+
+AbsState ==
+    << [s \in Sess |-> <<SessClass(s), lock[s] # 0, sinfo[s].pub>>],
+       [t \in Thr |-> <<pc[t], rq[t].kind, rq[t].ops, rq[t].bound # 0, rq[t].sclosed>>],
+       op.pc, {s \in Sess : pending[s] = RP} # {} >>
+
+SigArgs(args) ==
+    CASE "tok" \in DOMAIN args ->
+            << args.prin = sinfo[args.s].owner, args.w = sinfo[args.s].home, args.tok,
+               SessClass(args.s), lock[args.s] # 0,
+               IF "script" \in DOMAIN args THEN args.script ELSE <<>> >>
+      [] "accept" \in DOMAIN args ->
+            << draining[args.w], args.w \in SealFails, args.script, args.accept >>
+      [] "lag" \in DOMAIN args ->
+            << args.lag, {SessClass(s) : s \in {x \in Sess : sinfo[x].used /\ sinfo[x].home = args.w}} >>
+      [] "w" \in DOMAIN args ->
+            << draining[args.w], down[args.w],
+               {SessClass(s) : s \in {x \in Sess : sinfo[x].used /\ sinfo[x].home = args.w}} >>
+      [] OTHER -> << args >>
+
 St(a, t, args, exp) ==
     Record([a |-> a, t |-> t, args |-> args,
-            exp |-> exp @@ Proj(closed', reg', pc', rq')])
+            exp |-> exp @@ Proj(closed', reg', pc', rq')],
+           <<a, SigArgs(args), AbsState>>)
 
 --------------------------------------------------------------------------
-Expired(s, n) == reg[s].exp < n              \* entry.expiresAt.Before(now)
-
 ReaperBusy == \E s \in Sess : pending[s] = RP
 ThreadBusy == \E t \in Thr : pc[t] # "idle"
 Busy == ThreadBusy \/ ReaperBusy \/ op.pc # "idle"
@@ -448,7 +483,8 @@ Del_Finish(t) ==
 --------------------------------------------------------------------------
 (* Reaper: drainExpired(tick time) on worker w.                            *)
 Reap(w, lag) ==
-    LET S == {s \in Sess : sinfo[s].used /\ sinfo[s].home = w /\ reg[s].in /\ reg[s].exp + lag < now} IN
+    LET S == {s \in Sess : sinfo[s].used /\ sinfo[s].home = w /\ reg[s].in
+                           /\ (IF Mode = "trace" THEN TraceExpired(s) ELSE reg[s].exp + lag < now)} IN
     /\ CanStart /\ ~ReaperBusy /\ ~down[w] /\ cnt.reaps < MaxReaps
     /\ reg' = [s \in Sess |-> IF s \in S THEN [reg[s] EXCEPT !.in = FALSE] ELSE reg[s]]
     /\ pending' = [s \in Sess |-> IF s \in S THEN RP ELSE pending[s]]
@@ -530,6 +566,7 @@ Init ==
     /\ rq = [t \in Thr |-> NoReq]
     /\ op = [pc |-> "idle", w |-> "-"]
     /\ cnt = [req |-> 0, ops |-> 0, reaps |-> 0]
+    /\ (Mode = "classes") => TLCSet(1, {})
     /\ hist = << [a |-> "Init", t |-> 0,
                   args |-> [NSess |-> NSess, NThr |-> NThr, Prin |-> Prin, Worker |-> Worker,
                             SealFails |-> SealFails, Serial |-> Serial],
